@@ -1,5 +1,6 @@
 import Chewing.Proofs.CliFile
 import Chewing.Proofs.CliSqlOrder
+import Chewing.Proofs.CliAccept
 /-!
 # C20 — The dictionary compiler and dumper are inverse on well-formed sources
 
@@ -70,6 +71,20 @@ theorem parse_source_line (d : Nat) (keep qp qf : Bool) (g1 g2 gs : Text) (cm : 
     (hgs : gs ≠ [] ∧ AllSep sylSep gs) (hcm : ∀ gc c, cm = some (gc, c) → gc ≠ [] ∧ AllSep sylSep gc) :
     parseLine d keep (renderLine qp qf g1 g2 gs cm r) = .ok (zeroFreq keep r) :=
   parse_renderLine d keep qp qf g1 g2 gs cm r h hd hg1 hg2 hgs hcm
+
+/-- … and with one pair of quotes around everything after the frequency (`qs`), the CSV style of the
+    repository's fourth parser test `"鑰匙",668,"ㄧㄠˋ ㄔˊ # not official"` -/
+theorem parse_source_line_quoted (d : Nat) (keep qp qf qs : Bool) (g1 g2 gs : Text) (cm : Option (Text × Text)) (r : Rec)
+    (h : WellFormedRecord r) (hd : sylSep d = true)
+    (hg1 : g1 ≠ [] ∧ ∀ c ∈ g1, c = d) (hg2 : g2 ≠ [] ∧ ∀ c ∈ g2, c = d)
+    (hgs : gs ≠ [] ∧ AllSep sylSep gs) (hcm : ∀ gc c, cm = some (gc, c) → gc ≠ [] ∧ AllSep sylSep gc) :
+    parseLine d keep (renderLineQ qp qf qs g1 g2 gs cm r) = .ok (zeroFreq keep r) :=
+  parse_renderLineQ d keep qp qf qs g1 g2 gs cm r h hd hg1 hg2 hgs hcm
+
+/-- quotes around any text after the frequency are invisible to the syllable loop of `parse_line` -/
+theorem quoted_syllable_fields (s : Text) :
+    parseSyls (tokens sylSep (cliQuote :: (s ++ [cliQuote]))) = parseSyls (tokens sylSep s) :=
+  parseSyls_tokens_quoted quote_not_sep s
 
 /-- token-level reading (covers every other style, e.g. one pair of quotes around all syllables and the
     comment): if the first two delimiter fields strip to the phrase and a `u32` and the remaining
@@ -296,7 +311,7 @@ example : ¬ F34Changes .sqlite [⟨[20596], 0, [10268]⟩, ⟨[20874], 0, [1026
 /-! ## 3b. the whole statement for a source file of well-formed lines -/
 
 /-- **wellformed_source_roundtrip** — for every source file made of well-formed lines in free style
-    (`SrcLine`: optional quotes around phrase and frequency, runs of the delimiter, any commas / whitespace
+    (`SrcLine`: optional quotes around phrase, frequency and the syllable part, runs of the delimiter, any commas / whitespace
     between syllables, optional `# comment`; duplicates, homophones and prefix keys allowed; with `--csv`
     any header line), written with LF line ends, for both back ends and all flags:
     1. the file compiles — nothing is reported, every line's record is inserted (one-character frequencies
@@ -379,6 +394,27 @@ theorem reported_iff (f : Flags) (src : List Text) (n : Nat) (e : LineErr) :
   · rintro ⟨i, l, h1, h2, h3, h4⟩
     obtain ⟨k, hk, hb⟩ := body_get f src i h2
     exact ⟨k, l, by rw [hb, h1], by omega, h4⟩
+
+/-- **accepted_iff** — the malformed-source stream, exactly: `parse_line` accepts a line iff (1) it has a
+    non-empty delimiter-separated field, (2) that field strips to one character and `--keep-word-freq` is off,
+    or the second such field strips to a `u32`, (3) every syllable field (`sylFields`: fields after the first
+    two, stripped, empty ones dropped, up to the first one starting with `#`) is an ordered Bopomofo
+    syllable.  By `reported_iff` every other line — and no accepted one — is reported with its number. -/
+theorem accepted_iff (d : Nat) (keep : Bool) (l : Text) :
+    (∃ r, parseLine d keep l = .ok r) ↔
+      ∃ f0 fs, tokens (· == d) l = f0 :: fs ∧
+        (((trimQ f0).length = 1 ∧ keep = false) ∨ ∃ f1, fs.head? = some f1 ∧ (parseU32 (trimQ f1)).isSome = true) ∧
+        ∀ s ∈ sylFields l, ∃ c, Chewing.parse s = .ok c :=
+  Cli.accepted_iff d keep l
+
+/-- … and each reported cause names the defect: no field at all; no second field; a second field that is
+    not a `u32`; a syllable field that is not a syllable -/
+theorem rejected_cause (d : Nat) (keep : Bool) (l : Text) (e : LineErr) (h : parseLine d keep l = .error e) :
+    (e = .noPhrase → tokens (· == d) l = []) ∧
+    (e = .noFreq → ∃ f0, tokens (· == d) l = [f0]) ∧
+    (e = .badFreq → ∃ f0 f1 fs, tokens (· == d) l = f0 :: f1 :: fs ∧ parseU32 (trimQ f1) = none) ∧
+    (e = .bopomofo ∨ e = .syllable → ∃ s ∈ sylFields l, ∃ e', Chewing.parse s = .error e') :=
+  Cli.rejected_cause d keep l e h
 
 /-- **skip_invalid_keeps_valid** — with `--skip-invalid` the tool always builds, from exactly the
     records of the lines that parse, in file order -/
@@ -503,10 +539,10 @@ example :
         [⟨[28204, 35430], 10, [10268, 8708]⟩, ⟨[28204], 0, [10268]⟩] ∧
     ∀ r ∈ entries .trie [⟨[28204], 0, [10268]⟩, ⟨[28204, 35430], 9, [10268, 8708]⟩, ⟨[28204, 35430], 10, [10268, 8708]⟩],
       WellFormedRecord r := by decide
-/-- a well-formed free-style line: `"測試"  "9" ㄘㄜˋ,ㄕˋ # x` -/
-example : (⟨true, true, [32, 32], [32], [44], some ([32], [32, 120]), ⟨[28204, 35430], 9, [10268, 8708]⟩⟩ : SrcLine).text =
-    [34, 28204, 35430, 34, 32, 32, 34, 57, 34, 32, 12568, 12572, 715, 44, 12565, 715, 32, 35, 32, 120] := by decide
-example : (⟨true, true, [32, 32], [32], [44], some ([32], [32, 120]), ⟨[28204, 35430], 9, [10268, 8708]⟩⟩ : SrcLine).OK 32 :=
+/-- a well-formed free-style line: `"測試"  "9" "ㄘㄜˋ,ㄕˋ # x"` -/
+example : (⟨true, true, true, [32, 32], [32], [44], some ([32], [32, 120]), ⟨[28204, 35430], 9, [10268, 8708]⟩⟩ : SrcLine).text =
+    [34, 28204, 35430, 34, 32, 32, 34, 57, 34, 32, 34, 12568, 12572, 715, 44, 12565, 715, 32, 35, 32, 120, 34] := by decide
+example : (⟨true, true, true, [32, 32], [32], [44], some ([32], [32, 120]), ⟨[28204, 35430], 9, [10268, 8708]⟩⟩ : SrcLine).OK 32 :=
   ⟨by decide, ⟨by decide, by decide⟩, ⟨by decide, by decide⟩,
    ⟨by decide, fun c hc => by simp at hc; subst hc; decide⟩,
    fun gc c h => by cases h; exact ⟨by decide, fun c hc => by simp at hc; subst hc; decide⟩⟩
